@@ -6,7 +6,7 @@
 //! reference encoder): parse-back identity, token-level structure of the
 //! output, spelling independence, float rejection, run-to-run identity.
 
-use in_toto::interchange::{DataInterchange, Json};
+use in_toto::interchange::{DataInterchange, Json, JsonPretty};
 use serde_json::{json, Map, Value};
 
 use crate::report::{Acc, Check, Tier};
@@ -113,7 +113,19 @@ fn structure_ok(out: &[u8]) -> Result<(), String> {
 /// All per-value obligations for an integer-only value.
 fn check_value(acc: &mut Acc, v: &Value, origin: &str) {
     acc.evaluations += 1;
-    let witness = || json!({"kind": "value", "origin": origin, "value_text": v.to_string()});
+    let witness = || {
+        let t = v.to_string();
+        if t.len() > 600 {
+            json!({"kind": "long-value", "origin": origin, "value_sha256": util::hex(&util::sha256(t.as_bytes())), "value_head": t.chars().take(80).collect::<String>(), "value_len": t.len()})
+        } else {
+            json!({"kind": "value", "origin": origin, "value_text": t})
+        }
+    };
+    // call history: the other encoding style of the same value runs first on this thread; the
+    // canonical form must not depend on it
+    if origin != "scalar-as-string" {
+        let _ = guard(|| Json::canonicalize_for_signing(v));
+    }
     let out = match canon(v) {
         Ok(o) => o,
         Err(e) => {
@@ -147,6 +159,45 @@ fn check_value(acc: &mut Acc, v: &Value, origin: &str) {
     if canon(v).ok().as_ref() != Some(&out) {
         acc.violation("nondeterministic", "two canonicalisations of the same value differ", witness);
     }
+    // the other entry points that promise the same bytes
+    if origin != "scalar-as-string" && origin != "scalar-key-pair" {
+        let mut buf = vec![];
+        let w = guard(|| Json::to_writer(&mut buf, v).map_err(|e| format!("{e:?}")));
+        if !matches!(w, Guard::Done(Ok(()))) || buf != out {
+            acc.violation("entry-points-disagree:Json::to_writer", "Json::to_writer does not write the bytes Json::canonicalize returns", witness);
+        }
+        match guard(|| JsonPretty::canonicalize(v)) {
+            Guard::Done(Ok(b)) if b == out => {}
+            _ => acc.violation("entry-points-disagree:JsonPretty::canonicalize", "JsonPretty::canonicalize differs from Json::canonicalize", witness),
+        }
+    }
+}
+
+/// Strings of length 15..70000 whose escaping-relevant characters sit at the start, in the middle,
+/// at the end, or everywhere.
+pub fn long_strings() -> Vec<String> {
+    let mut out = vec![];
+    for len in [15usize, 16, 17, 31, 32, 33, 63, 64, 65, 127, 128, 129, 255, 256, 257, 1023, 1024, 1025, 4095, 4096, 4097, 8192, 65536, 70001] {
+        for special in ['\\', '"', '\n', '\0', 'é', '\u{1f600}', '\u{7f}'] {
+            for place in 0..4 {
+                if len > 5000 && place == 3 {
+                    continue;
+                }
+                let mut s = String::new();
+                for i in 0..len {
+                    let here = match place {
+                        0 => i == 0,
+                        1 => i == len / 2,
+                        2 => i == len - 1,
+                        _ => i % 2 == 1,
+                    };
+                    s.push(if here { special } else { 'a' });
+                }
+                out.push(s);
+            }
+        }
+    }
+    out
 }
 
 fn key_alphabet() -> Vec<String> {
@@ -420,6 +471,17 @@ pub fn run(tier: Tier) -> i32 {
     acc.merge(Acc::merge_all(accs));
     acc.note_n("critical_strings", strs.len() as u64);
 
+    // (a'') long strings: lengths around typical buffer / fast-path thresholds, with the
+    // escaping-relevant characters at the start, in the middle, at the end, and throughout
+    let long = long_strings();
+    let accs = util::par_fold(&long, Acc::new, |acc, _i, s| {
+        check_value(acc, &json!(s), "long-string");
+        check_value(acc, &json!({ s.clone(): [s.clone()], "k": s.clone() }), "long-string-as-key");
+        acc.nontrivial += 1;
+    });
+    acc.merge(Acc::merge_all(accs));
+    acc.note_n("long_strings", long.len() as u64);
+
     // (b) grammar
     let l0 = leaves();
     let keys = key_alphabet();
@@ -533,11 +595,13 @@ pub fn run(tier: Tier) -> i32 {
     }
     c.acc = acc;
     c.rule = format!(
-        "(a) every scalar of the tier's set as a one-character string, as an object key next to another member, and as a key next to its successor; (b) value grammar: 13 leaves, arrays <= 2 and objects <= 2 (7 keys incl. U+FFFF / U+10000) over them, nested to depth {depth_done} over reduced child sets; (c) all 343 key triples; (d) integers 0, +-2^k, +-2^k+-1 (k<=64), 10^k, 10^k-1, extremes and 15 non-integer spellings in 5 contexts; (e) all spellings (6 whitespace fillers x 2 member orders x 5 escape modes x 2 channels) of {} values. distinct_nontrivial counts scalars + grammar values + non-integer cases",
+        "(a) every scalar of the tier's set as a one-character string, as an object key next to another member, and as a key next to its successor; (a'') strings of 24 lengths 15..70001 with one of 7 escaping-relevant characters at the start / middle / end / every second position, as string and as key; for every value except single scalars also Json::to_writer and JsonPretty::canonicalize (same bytes) and a preceding canonicalize_for_signing call on the same thread (no influence); (b) value grammar: 13 leaves, arrays <= 2 and objects <= 2 (7 keys incl. U+FFFF / U+10000) over them, nested to depth {depth_done} over reduced child sets; (c) all 343 key triples; (d) integers 0, +-2^k, +-2^k+-1 (k<=64), 10^k, 10^k-1, extremes and 15 non-integer spellings in 5 contexts; (e) all spellings (6 whitespace fillers x 2 member orders x 5 escape modes x 2 channels) of {} values. distinct_nontrivial counts scalars + grammar values + non-integer cases",
         subset.len()
     );
     c.bound_completed = format!("scalars: {}; grammar depth {depth_done}", "all 1,112,064");
     c.assume("serde_json (as built into the library, default features) is the JSON reader used for parse-back and for spellings");
+    c.assume("member-order independence is discharged by serde_json's default (sorted) map in this build: every Value reaching the encoder is already sorted, so the encoder's own sort is not observable here (it would be with the preserve_order feature unified in by another crate)");
+    c.assume("non-integer numbers include integral-valued floats (1.0, 1e2): they must be rejected because the canonical form 1 would parse back to a different value");
     c.finish()
 }
 
